@@ -31,10 +31,11 @@ Definition conn_of (kd : kind) : conn :=
 
 (* ---------- atomic write = aggregate_bounds on one object ---------- *)
 Definition batch := list (nat * bnd).
+(* Qred keeps the representation of the rationals small; it does not change their value *)
 Definition write (sa : state * Q) (jb : nat * bnd) : state * Q :=
   let s := fst sa in
   let r := aggregate WBoth (s (fst jb)) (snd jb) in
-  (upd s (fst jb) (fst r), snd sa + snd r).
+  (upd s (fst jb) (bred (fst r)), Qred (snd sa + snd r)).
 Definition apply_batch (sa : state * Q) (b : batch) : state * Q := fold_left write b sa.
 
 (* ---------- contradiction arresting (propositional) ---------- *)
@@ -216,7 +217,7 @@ Definition consistent (k : kb) (vals : nat -> Q) : Prop :=
 (* ---------- well-formedness of a knowledge base ---------- *)
 Definition wf_obj (k : kb) (i : nat) (o : obj) : Prop :=
   Forall (fun j => (j < i)%nat) (oops o) /\ Forall (fun j => (j < i)%nat) (oaux o) /\
-  alpha (opar o) <= 1 /\
+  (1 # 2 < alpha (opar o) /\ alpha (opar o) <= 1) /\
   match okind o with
   | KProp => oops o = []
   | KNot => length (oops o) = 1%nat
@@ -229,7 +230,7 @@ Definition wf_kb (k : kb) : Prop := forall i, (i < length k)%nat -> wf_obj k i (
 (* executable wf check used by the correspondence driver *)
 Definition wf_objb (i : nat) (o : obj) : bool :=
   forallb (fun j => Nat.ltb j i) (oops o) && forallb (fun j => Nat.ltb j i) (oaux o) &&
-  qleb (alpha (opar o)) 1 &&
+  qltb (1 # 2) (alpha (opar o)) && qleb (alpha (opar o)) 1 &&
   match okind o with
   | KProp => match oops o with [] => true | _ => false end
   | KNot => Nat.eqb (length (oops o)) 1
@@ -238,3 +239,24 @@ Definition wf_objb (i : nat) (o : obj) : bool :=
   end.
 Definition wf_kbb (k : kb) : bool :=
   forallb (fun p => wf_objb (fst p) (snd p)) (combine (seq 0 (length k)) k).
+
+(* ---------- public operations (what a user can call between two data updates) ---------- *)
+Inductive pubop :=
+| ONodeUp (i : nat)
+| ONodeDown (i : nat) (idx : option nat)
+| OModelUp (src : option nat)
+| OModelDown (src : option nat)
+| OInfer (src : option nat) (max_steps : nat) (fuel : nat).
+
+(* new state and reported amount *)
+Definition exec_op (k : kb) (roots : list nat) (s : state) (o : pubop) : state * Q :=
+  match o with
+  | ONodeUp i => run_prims k (s, 0) (node_up k i)
+  | ONodeDown i idx => run_prims k (s, 0) (node_down k i idx)
+  | OModelUp src => pass k roots Up src s
+  | OModelDown src => pass k roots Down src s
+  | OInfer src ms fuel =>
+      let r := infer fuel k roots None src None ms s in (ir_state r, ir_amount r)
+  end.
+Definition exec_ops (k : kb) (roots : list nat) (s : state) (ops : list pubop) : state :=
+  fold_left (fun st o => fst (exec_op k roots st o)) ops s.
